@@ -44,10 +44,11 @@ PURE_STR_METHODS = {
     'title', 'capitalize', 'casefold', 'removeprefix', 'removesuffix',
     'zfill', 'format', 'encode', 'decode', 'hex', 'swapcase', 'center',
     'ljust', 'rjust', 'expandtabs', 'isupper', 'islower', 'isnumeric',
-    'isdecimal', 'isidentifier', 'istitle'}
+    'isdecimal', 'isidentifier', 'istitle', 'translate'}
 STR_RET = {'lower', 'upper', 'strip', 'lstrip', 'rstrip', 'replace',
            'format', 'join', 'decode', 'title', 'capitalize', 'removesuffix',
-           'removeprefix', 'casefold', 'hex'}
+           'removeprefix', 'casefold', 'hex', 'translate', 'swapcase',
+           'center', 'ljust', 'rjust', 'expandtabs', 'zfill'}
 BYTES_RET = {'encode'}
 
 ARITH = {ast.Add: _op.add, ast.Sub: _op.sub, ast.Mult: _op.mul,
@@ -1001,6 +1002,9 @@ def call_method(interp, base, name, args, kwargs):
             interp.types[t] = 'str'
             return t
         return method_term(interp, base, name, args, kwargs)
+    if name == '__contains__' and len(args) == 1 and isinstance(
+            base, (ListV, DictV, SetV, TupleV, K)):
+        return _compare(interp, 'in', args[0], base)
     if isinstance(base, ListV):
         return list_method(interp, base, name, args, kwargs)
     if isinstance(base, DictV):
@@ -2054,13 +2058,28 @@ def b_parse_qs(interp, args, kwargs):
 
 
 def b_groupby(interp, args, kwargs):
-    if not isinstance(args[0], (ListV, TupleV)):
+    if isinstance(args[0], T) and interp.guide is not None:
+        # following one input: the elements are those of its value
+        source = interp.iterate(args[0])
+    elif isinstance(args[0], (ListV, TupleV)):
+        source = args[0].items
+    elif isinstance(args[0], K) and isinstance(args[0].v, (str, tuple)):
+        source = interp.iterate(args[0])
+    else:
         return NotImplemented
     keyf = args[1] if len(args) > 1 else kwargs.get('key')
+    if isinstance(keyf, K) and keyf.v is None:
+        keyf = None
     out = []
     last = None
-    for item in args[0].items:
+    for item in source:
         k = interp.call(keyf, [item]) if keyf is not None else item
+        if isinstance(k, T) and interp.guide is not None:
+            from .termeval import CannotEval, Raised
+            try:
+                k = from_python(interp.guide(interp.termify(k)))
+            except (CannotEval, Raised, Inexact):
+                pass
         if out and isinstance(_compare(interp, '==', last, k), K) and \
                 _compare(interp, '==', last, k).v:
             out[-1].items[1].items.append(item)
